@@ -388,6 +388,38 @@ def _shift_count_loop(fn: ast.AST, consts):
             return None
         return t[1] if t[0] == "c" and isinstance(t[1], int) and not isinstance(t[1], bool) else None
 
+    # `size = S; rest = value >> G; while rest: size += I; rest >>= G; return size`: the loop runs while value >> G is not zero,
+    # i.e. (for value >= 0, the only values that reach it) while value > 2**G - 1 - the same count as the form below
+    for lp in [n for n in ast.walk(fn) if isinstance(n, ast.While)]:
+        t = lp.test
+        r = t.id if isinstance(t, ast.Name) else (t.left.id if isinstance(t, ast.Compare) and len(t.ops) == 1 and isinstance(t.left, ast.Name) and isinstance(t.ops[0], (ast.Gt, ast.NotEq))
+                                                    and const(t.comparators[0]) == 0 else None)
+        if r is None or r == v or lp.orelse:
+            continue
+        pre = [a for a in ast.walk(fn) if isinstance(a, ast.Assign) and len(a.targets) == 1 and isinstance(a.targets[0], ast.Name) and a.targets[0].id == r]
+        if len(pre) != 1 or not (isinstance(pre[0].value, ast.BinOp) and isinstance(pre[0].value.op, ast.RShift) and isinstance(pre[0].value.left, ast.Name)
+                                 and pre[0].value.left.id == v and const(pre[0].value.right) is not None) or pre[0] in list(ast.walk(lp)):
+            continue
+        G0 = const(pre[0].value.right)
+        G = ctr = inc = None
+        extra = False
+        for st in lp.body:
+            if isinstance(st, ast.AugAssign) and isinstance(st.target, ast.Name) and st.target.id == r and isinstance(st.op, ast.RShift) and const(st.value) is not None:
+                G = const(st.value)
+            elif isinstance(st, ast.AugAssign) and isinstance(st.target, ast.Name) and st.target.id not in (v, r) and isinstance(st.op, ast.Add) and const(st.value) is not None:
+                ctr, inc = st.target.id, const(st.value)
+            else:
+                extra = True
+        if G is None or G != G0 or ctr is None or extra or G <= 0:
+            continue
+        # the value itself is not changed anywhere
+        if any(isinstance(x, ast.Name) and x.id == v and isinstance(x.ctx, ast.Store) for x in ast.walk(fn)):
+            continue
+        inits = [const(a.value) for a in ast.walk(fn) if isinstance(a, ast.Assign) and len(a.targets) == 1 and isinstance(a.targets[0], ast.Name) and a.targets[0].id == ctr]
+        rets = [x for x in ast.walk(fn) if isinstance(x, ast.Return) and isinstance(x.value, ast.Name) and x.value.id == ctr]
+        if len(inits) != 1 or inits[0] is None or not rets:
+            continue
+        return inits[0], (1 << G) - 1, G, inc
     for lp in [n for n in ast.walk(fn) if isinstance(n, ast.While)]:
         t = lp.test
         if not (isinstance(t, ast.Compare) and len(t.ops) == 1):
@@ -536,7 +568,10 @@ def rule_N1(ctx) -> None:
     f = varint_facts(ctx)
     loc = mod.loc(mod.func("load_varint"))
     group = f["dump_shifts"][0] if len(f["dump_shifts"]) == 1 else None
-    if group != SPEC_GROUP:
+    if group is None:
+        # no single constant shift found in the writer (groups addressed some other way): nothing is concluded from that
+        ctx.inconclusive("N1", "dump_varint:group=7", f"shift constants of the writer: {f['dump_shifts']}", loc)
+    elif group != SPEC_GROUP:
         ctx.refuted("N1", "dump_varint:group=7", f"group={group}", loc, f"base-128 varints carry 7 payload bits per byte, writer uses {group}", "encode_varint(128)")
     else:
         ctx.proved("N1", "dump_varint:group=7", loc)
